@@ -112,7 +112,7 @@ def shape(h):
 
 def inv_rec(i):
     return dict(hash=i["hash"], amt=i.get("amt", 0), hint=i.get("hint", False),
-                payee="p%d" % i.get("payee", 1), form=i.get("form", "ok"))
+                payee="p%d" % i.get("payee", 1), form=i.get("form", "ok"), zero=bool(i.get("zero", False)))
 
 def write_model(name, m):
     cfg = dict(m["cfg"]); cfg.setdefault("selfhints", True)
